@@ -215,6 +215,8 @@ def run(A, R: Report, thorough: bool):
             subs.append((n, subst_single_assign(A, fap, n.args[0])))
         elif isinstance(n, ast.Call) and isinstance(n.func, ast.Attribute) and n.func.attr in ('sub', 'subn'):
             comp = subst_single_assign(A, fap, n.func.value)
+            if isinstance(comp, ast.Name) and comp.id in fap.module.globals:
+                comp = fap.module.globals[comp.id]   # a pattern compiled once at module level
             if isinstance(comp, ast.Call) and src(comp.func) == 're.compile' and comp.args:
                 subs.append((n, subst_single_assign(A, fap, comp.args[0])))
     R.require(subs, 'anchor: re.sub/re.subn call missing in _apply')
